@@ -363,6 +363,13 @@ func runFaultJob(c *Ctl, job *Job, idx int, res *RunResult) {
 		res.HarnessErr = "unknown fault profile " + job.Profile
 		return
 	}
+	switch job.Profile {
+	case "c08", "c06s", "c14", "c19", "c04i":
+		if (idx/3)%3 == 1 {
+			// a third of the worlds also preempt goroutines at function entries inside taskctl's code
+			prof.PreemptPct, prof.PreemptDepth = 12, 14
+		}
+	}
 	e := RunIntegWorld(c, prof, w, res)
 	if e == nil {
 		return
